@@ -220,28 +220,26 @@ def rule_fullmove(ctx):
 def rule_placement(ctx):
     """move_piece against the rules: quiet / capture / en-passant cases."""
     ix = ctx.ix
-    mv, mb = c02.piece_ops(ix, MOVE_PIECE)
+    mv, mb = c02.piece_cases(ix, MOVE_PIECE)
     ctx.functions.add(MOVE_PIECE)
     want = {
         "quiet": [("remove", "start", "moving_piece"), ("add", "dest", "Option::unwrap_or(promoted_to, moving_piece)")],
         "capture": [("remove", "start", "moving_piece"), ("remove", "dest", "(captured_piece as Some).0"), ("add", "dest", "Option::unwrap_or(promoted_to, moving_piece)")],
         "en-passant": [("remove", "start", "moving_piece"), ("remove", "square::Square::Square{start.rank, dest.file}", "(captured_piece as Some).0"), ("add", "dest", "Option::unwrap_or(promoted_to, moving_piece)")],
     }
-    cases = {}
-    for cons, seq in mv.items():
-        d = dict((c.split("(")[-1].strip(")").split(".")[-1] if "discr" in c else c, v) for c, v in cons)
-        cap = None
-        ep = None
-        for c, v in cons:
-            if "discr" in c:
-                cap = v
-            else:
-                ep = v
-        name = "quiet" if cap == "0" and ep == "0" else "capture" if cap == "1" and ep == "0" else "en-passant" if cap == "1" else "other(%s,%s)" % (cap, ep)
-        cases[name] = seq
-    for name in sorted(set(want) | set(cases)):
-        ctx.check(cases.get(name) == want.get(name), "move_piece:%s" % name, "%s: %s" % (name, cases.get(name)), mb.where(0),
-                  bad_what="move_piece %s case does %s, the rules require %s" % (name, cases.get(name), want.get(name)))
+    for name in sorted(want):
+        got = mv.get(name)
+        if isinstance(got, list):
+            # the order of the two removals does not matter for the resulting placement; the addition comes last
+            norm = sorted(got[:-1]) + got[-1:]
+            wnorm = sorted(want[name][:-1]) + want[name][-1:]
+        else:
+            norm, wnorm = got, want[name]
+        ctx.check(norm == wnorm, "move_piece:%s" % name, "%s: %s" % (name, got), mb.where(0),
+                  bad_what="move_piece %s case does %s, the rules require %s" % (name, got, want[name]))
+    ctx.check(mv.get("en-passant-without-victim") in ("panic",) or mv.get("en-passant-without-victim") == mv.get("quiet"), "move_piece:en-passant-without-victim",
+              "an en-passant flag without a captured piece is refused (or treated as a quiet move)", mb.where(0),
+              bad_what="move_piece with en_passant set and no captured piece does %s" % (mv.get("en-passant-without-victim"),))
     # castling rook squares (shared with C01.castle-moves)
     from . import c01tables
     c01tables.check_rook_tables(ctx)
